@@ -121,9 +121,16 @@ def concat_seqs(parts, kind):
         # choose the part by offset comparisons; all must lower to Val
         acc = None
         for p, off in reversed(list(zip(parts, offs))):
-            v = to_val(p.at(SInt(it - _len_term(off)) if not isinstance(off, int) or off != 0 else SInt(it)))
-            acc = v if acc is None else z3.If(it < _len_term(off) + _len_term(p.length), v, acc)
-        return SV(acc)
+            e = p.at(SInt(it - _len_term(off)) if not isinstance(off, int) or off != 0 else SInt(it))
+            v = tuple(to_val(x) for x in e) if isinstance(e, tuple) else to_val(e)
+            if acc is None:
+                acc = v
+            elif isinstance(v, tuple) != isinstance(acc, tuple) or (isinstance(v, tuple) and len(v) != len(acc)):
+                raise Unsupported("concatenation of sequences with differently shaped elements")
+            else:
+                c = it < _len_term(off) + _len_term(p.length)
+                acc = tuple(z3.If(c, a, b) for a, b in zip(v, acc)) if isinstance(v, tuple) else z3.If(c, v, acc)
+        return tuple(SV(a) for a in acc) if isinstance(acc, tuple) else SV(acc)
 
     def raises(i):
         it = to_int(i)
